@@ -163,3 +163,11 @@ Qed.
 
 Theorem parse_alloc s l : parse s = POk l -> (List.length l <= List.length s)%nat.
 Proof. intros E. apply parse_loop_count in E. cbn [List.length] in E. lia. Qed.
+
+(* ---------------------------------------------------------------- re-exported by Properties/C53.v *)
+Theorem c53_rev_total :
+  (forall s g, (S (S (List.length s)) <= g)%nat -> parse_loop g s [] = parse s) /\
+  (forall f s prev buf g, (List.length s < f)%nat -> (f <= g)%nat -> parse_ref g s prev buf = parse_ref f s prev buf) /\
+  (forall f s start re negate g, (List.length s < f)%nat -> (f <= g)%nat ->
+     caret_braces g s start re negate = caret_braces f s start re negate).
+Proof. repeat split; [apply parse_stable|apply parse_ref_stable|apply caret_braces_stable]. Qed.
